@@ -8,6 +8,7 @@ Relational; decided as a lemma over contracts plus a data condition:
   * counts accumulate per distinct match set (C02), centre failure is per atom (C02);
   * the C01 sum is additive in the count vector (lemma here).
 The end-to-end comparison on pairs of molecules is the bounded stand-in."""
+from pyvc import source
 import os
 
 import z3
@@ -49,7 +50,7 @@ def data_no_molecule_prefix(tier, seed):
     from . import real
     n, viol = 0, []
     for lib in real.LIBS:
-        d = yaml.safe_load(open(os.path.join('/repo/pgradd/data', lib, 'scheme.yaml')))
+        d = yaml.safe_load(open(os.path.join(source.DATA_DIR, lib, 'scheme.yaml')))
         for sect in ('patterns', 'other_descriptors'):
             for e in d.get(sect) or []:
                 n += 1
